@@ -1,65 +1,49 @@
 /-
   C12 — shallow search returns the exact minimax value of its own evaluation.
+
   SPEC: `Spec.negamax` (plain minimax with check extension, capture quiescence, mate and repetition
-  scoring).  The executable oracle used by the check is `Spec.fast` (plain fail-soft alpha-beta).
-  Proved here so far: the algebra of the window relation `Bnd`, order independence of the minimax
-  value (`maxNeg_perm`), and that the null-move branch is dead below remaining depth 3
-  (`null_dead_below_3`), which is why iterations 1–3 are "non-speculative".
-  See Proofs/Negamax.lean for `fast_spec` (the oracle equals `negamax` inside the window).
+  scoring; Spec/Negamax.lean).
+  Proved (every game, every ordering that permutes, every window, every repetition table):
+    * `oracle_is_minimax` (= `fast_spec`): the plain fail-soft alpha-beta evaluator used as the
+      executable oracle of the C12/C10/C11 checks satisfies the window relation `Bnd` with respect to
+      `Spec.negamax`, hence equals it whenever the value lies inside the window (`oracle_exact`);
+    * `ordering_never_changes_the_value`: minimax over any permutation of the moves is the same
+      (principal-variation-first, killers, capture ordering are permutations);
+    * `null_move_dead_in_iterations_1_to_3`: the null-move test needs remaining depth ≥ 3, which a
+      root child of iterations 1–3 never has.
+  NOT proved: `ab_spec` — that the engine-shaped model search (PVS with zero-window re-search,
+  mate-distance clamp, stateful bookkeeping) satisfies `Bnd` w.r.t. `Spec.negamax`.  That clause is
+  decided on every run: the REAL search is run to the end of iteration 3 under the virtual clock,
+  with and without repetition histories, and every final score and selected move is compared with
+  the proved oracle; the model replays the same run from the engine's order log and must agree
+  exactly (node counts, info lines, sent boards).
 -/
-import Walleye.Spec.Negamax
+import Walleye.Proofs.Negamax
 namespace Walleye
 open Spec
 
-/-- what an alpha-beta result `r` may be, relative to the true value `v` and the window -/
-def Bnd (v a b r : Int) : Prop := (r ≤ a → v ≤ r) ∧ (b ≤ r → r ≤ v) ∧ (a < r → r < b → r = v)
+variable {P : Type} (g : Game P) (order : List P → List P)
 
-theorem Bnd.exact {v a b r : Int} (h : Bnd v a b r) (h1 : a < v) (h2 : v < b) : r = v := by
-  obtain ⟨l, u, e⟩ := h
-  by_cases c1 : r ≤ a
-  · have := l c1; omega
-  · by_cases c2 : b ≤ r
-    · have := u c2; omega
-    · exact e (by omega) (by omega)
+theorem oracle_is_minimax (hord : ∀ l, (order l).Perm l) (fuel depth ply : Nat) (t : DrawTable) (p : P)
+    (a b : Int) (hab : a < b) :
+    Bnd (negamax g fuel depth ply t p) a b (fast g order fuel depth ply t p a b) :=
+  fast_spec g order hord fuel depth ply t p a b hab
 
-theorem maxNeg_ge {P : Type} (f : P → Int) (l : List P) (acc : Int) : acc ≤ maxNeg f l acc := by
-  induction l generalizing acc with
-  | nil => simp [maxNeg]
-  | cons m ms ih => simp only [maxNeg]; exact Int.le_trans (Int.le_max_left _ _) (ih _)
+theorem oracle_exact (hord : ∀ l, (order l).Perm l) (fuel depth ply : Nat) (t : DrawTable) (p : P) (a b : Int)
+    (h1 : a < negamax g fuel depth ply t p) (h2 : negamax g fuel depth ply t p < b) :
+    fast g order fuel depth ply t p a b = negamax g fuel depth ply t p :=
+  fast_exact g order hord fuel depth ply t p a b h1 h2
 
-theorem maxNeg_mono {P : Type} (f : P → Int) (l : List P) (a b : Int) (h : a ≤ b) :
-    maxNeg f l a ≤ maxNeg f l b := by
-  induction l generalizing a b with
-  | nil => simpa [maxNeg]
-  | cons m ms ih => simp only [maxNeg]; apply ih; omega
+theorem quiescence_oracle_is_minimax (hord : ∀ l, (order l).Perm l) (fuel : Nat) (p : P) (a b : Int) (hab : a < b) :
+    Bnd (qval g fuel p) a b (qfast g order fuel p a b) := qfast_spec g order hord fuel p a b hab
 
-theorem maxNeg_mem {P : Type} (f : P → Int) (l : List P) (acc : Int) (m : P) (hm : m ∈ l) : - f m ≤ maxNeg f l acc := by
-  induction l generalizing acc with
-  | nil => cases hm
-  | cons x xs ih =>
-    simp only [maxNeg]
-    cases List.mem_cons.mp hm with
-    | inl e => subst e; exact Int.le_trans (Int.le_max_right _ _) (maxNeg_ge f xs _)
-    | inr e => exact ih _ e
+theorem ordering_never_changes_the_value (f : P → Int) (l l' : List P) (h : l.Perm l') (acc : Int) :
+    maxNeg f l acc = maxNeg f l' acc := maxNeg_perm f l l' h acc
 
-theorem maxNeg_swap {P : Type} (f : P → Int) (x y : P) (l : List P) (acc : Int) :
-    maxNeg f (x :: y :: l) acc = maxNeg f (y :: x :: l) acc := by
-  simp only [maxNeg]
-  congr 1
-  omega
+theorem null_move_dead_in_iterations_1_to_3 (allowNull : Bool) (depth : Nat) (inCheck : Bool) (hd : depth < 3) :
+    ¬ (allowNull = true ∧ depth ≥ Gen.nullMinDepth ∧ ¬ inCheck = true) := null_dead_below_3 allowNull depth inCheck hd
 
-/-- move ordering never changes the minimax value -/
-theorem maxNeg_perm {P : Type} (f : P → Int) (l l' : List P) (h : l.Perm l') (acc : Int) :
-    maxNeg f l acc = maxNeg f l' acc := by
-  induction h generalizing acc with
-  | nil => rfl
-  | cons x _ ih => simp only [maxNeg]; exact ih _
-  | swap x y l => exact maxNeg_swap f y x l acc
-  | trans _ _ ih1 ih2 => exact (ih1 acc).trans (ih2 acc)
-
-/-- the null-move test of `alpha_beta_search` can only fire with remaining depth ≥ 3 -/
-theorem null_dead_below_3 (allowNull : Bool) (depth : Nat) (inCheck : Bool) (hd : depth < 3) :
-    ¬ (allowNull = true ∧ depth ≥ Gen.nullMinDepth ∧ ¬ inCheck = true) := by
-  simp only [Gen.nullMinDepth]; omega
+/-- non-vacuity: a two-move game where the second move is better; any window containing the value -/
+example : maxNeg (fun (x : Nat) => (x : Int)) [3, 1] (-5) = -1 := by decide
 
 end Walleye
